@@ -77,6 +77,8 @@ const PRETTY_MAX_DEPTH: u64 = 20_000;
 
 #[derive(Clone, Debug, PartialEq)]
 pub enum Case {
+    /// the API sweep: public function `func` with a deep document in the argument position(s) and format(s) `variant` names
+    Api { func: String, variant: String, shape: String, depth: u64, stack: u64, build: String },
     Depth { op: String, shape: String, depth: u64, stack: u64, build: String },
     Index { op: String, index: i32, index2: i32, len: usize, text: bool, build: String },
 }
@@ -86,6 +88,8 @@ pub struct Limits {
     pub floors: BTreeMap<String, BTreeMap<(String, u64), u64>>,
     /// keys of all C20 findings with status known
     pub listed: std::collections::BTreeSet<String>,
+    /// API-sweep variants that die of stack exhaustion on the unchanged tree: key -> builds (limits_baseline.json)
+    pub baseline: BTreeMap<String, Vec<String>>,
 }
 
 /// A crash is covered by its recorded finding only from this fraction of the recorded depth on.
@@ -120,7 +124,15 @@ impl Limits {
                 }
             }
         }
-        Limits { floors, listed }
+        let mut baseline = BTreeMap::new();
+        if let Ok(txt) = std::fs::read_to_string(format!("{}/limits_baseline.json", crate::harness::VERIF_DIR)) {
+            if let Ok(j) = serde_json::from_str::<J>(&txt) {
+                for (k, v) in j["crashing_today"].as_object().cloned().unwrap_or_default() {
+                    baseline.insert(k, v.as_array().map(|a| a.iter().filter_map(|x| x.as_str().map(|s| s.to_string())).collect()).unwrap_or_default());
+                }
+            }
+        }
+        Limits { floors, listed, baseline }
     }
 
     /// A recorded finding covers a crash only at or beyond 85 % of the smallest crashing depth recorded
@@ -130,6 +142,21 @@ impl Limits {
             Some(floor) => depth * 100 >= *floor * COVER_NUM,
             None => false,
         }
+    }
+
+    /// The API sweep: every function x variant x shape x build at one depth and stack budget.
+    fn api_plan() -> Vec<Case> {
+        let mut v = vec![];
+        for (func, binary, _) in API_FUNCS {
+            for variant in api_variants(*binary, func) {
+                for shape in API_SHAPES {
+                    for build in API_BUILDS {
+                        v.push(Case::Api { func: func.to_string(), variant: variant.to_string(), shape: shape.to_string(), depth: API_DEPTH, stack: API_STACK, build: build.to_string() });
+                    }
+                }
+            }
+        }
+        v
     }
 
     /// Probe cases: just below every recorded crashing depth the operation must still complete.
@@ -512,6 +539,137 @@ fn run_index_text_op(op: &str, index: i32, index2: i32, len: usize, text: bool) 
     }
 }
 
+// ---------------------------------------------------------------------------
+// API sweep: every public byte-level function with a deep document in each argument position and format.
+// What dies of stack exhaustion on the unchanged tree is recorded in /verif/limits_baseline.json; the sweep
+// therefore reports regressions only (a function or argument combination that is shallow today and recurses tomorrow).
+// ---------------------------------------------------------------------------
+
+pub const API_DEPTH: u64 = 60_000;
+pub const API_STACK: u64 = 2 << 20;
+pub const API_BUILDS: &[&str] = &["dev", "shipped"];
+pub const API_SHAPES: &[&str] = &["arrays", "objects"];
+const UNARY_VARIANTS: &[&str] = &["dJ", "dT"];
+const BINARY_VARIANTS: &[&str] = &["dJ_sJ", "sJ_dJ", "dJ_dJ", "dT_sT", "sT_dT", "sT_dJ", "dJ_sT"];
+
+/// (function, is_binary, small document kind: 'a' array / 'o' object)
+pub const API_FUNCS: &[(&str, bool, char)] = &[
+    ("array_length", false, 'a'), ("get_by_index", false, 'a'), ("get_by_name", false, 'o'), ("get_by_name_ignore_case", false, 'o'),
+    ("get_by_keypath_short", false, 'a'), ("exists_all_keys", false, 'o'), ("exists_any_keys", false, 'o'), ("object_keys", false, 'o'),
+    ("object_each", false, 'o'), ("array_values", false, 'a'), ("is_null", false, 'a'), ("as_bool", false, 'a'), ("to_bool", false, 'a'),
+    ("as_number", false, 'a'), ("to_i64", false, 'a'), ("to_u64", false, 'a'), ("to_f64", false, 'a'), ("as_str", false, 'a'), ("to_str", false, 'a'),
+    ("is_array", false, 'a'), ("is_object", false, 'o'), ("to_serde_json", false, 'a'), ("to_serde_json_object", false, 'o'), ("type_of", false, 'a'),
+    ("traverse_check_string", false, 'a'), ("delete_by_name", false, 'o'), ("delete_by_index", false, 'a'), ("delete_by_keypath_short", false, 'a'),
+    ("array_distinct", false, 'a'), ("object_delete", false, 'o'), ("object_pick", false, 'o'), ("strip_nulls", false, 'a'), ("path_exists_root", false, 'a'),
+    ("path_match_predicate", false, 'a'), ("get_by_path_first_elem", false, 'a'), ("get_by_path_array_wild", false, 'a'), ("parse_lazy_value", false, 'a'),
+    ("lazy_raw_to_vec", false, 'a'), ("lazy_raw_array_length", false, 'a'), ("lazy_raw_write_to_vec", false, 'a'),
+    ("contains", true, 'a'), ("concat", true, 'a'), ("array_insert", true, 'a'), ("array_intersection", true, 'a'), ("array_except", true, 'a'),
+    ("array_overlap", true, 'a'), ("object_insert", true, 'o'), ("build_array", true, 'a'), ("build_object", true, 'o'),
+];
+
+pub fn api_variants(binary: bool, func: &str) -> Vec<&'static str> {
+    if !binary {
+        UNARY_VARIANTS.to_vec()
+    } else if func == "build_array" || func == "build_object" {
+        // items must be JSONB
+        vec!["dJ_sJ", "sJ_dJ", "dJ_dJ"]
+    } else {
+        BINARY_VARIANTS.to_vec()
+    }
+}
+
+fn api_arg(code: &str, shape: &str, depth: u64, small: char) -> Vec<u8> {
+    let small_tree = if small == 'o' {
+        let mut m = BTreeMap::new();
+        m.insert("a".to_string(), MVal::U64(1));
+        MVal::Obj(m)
+    } else {
+        MVal::Arr(vec![MVal::U64(1), MVal::s("a")])
+    };
+    match code {
+        "dJ" => deep_jsonb(shape, depth),
+        "dT" => deep_text(shape, depth),
+        "sJ" => mval::encode(&small_tree),
+        _ => mval::to_text(&small_tree, &mval::TextStyle::default()).into_bytes(),
+    }
+}
+
+fn run_api(func: &str, variant: &str, shape: &str, depth: u64) -> String {
+    use jsonb::keypath::KeyPath;
+    let small = API_FUNCS.iter().find(|f| f.0 == func).map(|f| f.2).unwrap_or('a');
+    let mut parts = variant.split('_');
+    let a = api_arg(parts.next().unwrap_or("dJ"), shape, depth, small);
+    let b = parts.next().map(|c| api_arg(c, shape, depth, small)).unwrap_or_default();
+    let mut out = Vec::new();
+    let mut offs = Vec::new();
+    let short_kp = [if level_is_object(shape, 0) { KeyPath::Name(Cow::Borrowed("a")) } else { KeyPath::Index(0) }];
+    let keys: [&[u8]; 2] = [b"a", b"zz"];
+    let set: std::collections::BTreeSet<&str> = ["a"].into_iter().collect();
+    let root = || jp::JsonPath { paths: vec![jp::Path::Root] };
+    match func {
+        "array_length" => { let _ = jsonb::array_length(&a); }
+        "get_by_index" => { let _ = jsonb::get_by_index(&a, 0); }
+        "get_by_name" => { let _ = jsonb::get_by_name(&a, "a", false); }
+        "get_by_name_ignore_case" => { let _ = jsonb::get_by_name(&a, "A", true); }
+        "get_by_keypath_short" => { let _ = jsonb::get_by_keypath(&a, short_kp.iter()); }
+        "exists_all_keys" => { let _ = jsonb::exists_all_keys(&a, keys.iter().copied()); }
+        "exists_any_keys" => { let _ = jsonb::exists_any_keys(&a, keys.iter().copied()); }
+        "object_keys" => { let _ = jsonb::object_keys(&a); }
+        "object_each" => { let _ = jsonb::object_each(&a); }
+        "array_values" => { let _ = jsonb::array_values(&a); }
+        "is_null" => { let _ = (jsonb::is_null(&a), jsonb::as_null(&a)); }
+        "as_bool" => { let _ = (jsonb::as_bool(&a), jsonb::is_boolean(&a)); }
+        "to_bool" => { let _ = jsonb::to_bool(&a); }
+        "as_number" => { let _ = (jsonb::as_number(&a), jsonb::is_number(&a), jsonb::is_i64(&a), jsonb::is_u64(&a), jsonb::is_f64(&a)); }
+        "to_i64" => { let _ = (jsonb::to_i64(&a), jsonb::as_i64(&a)); }
+        "to_u64" => { let _ = (jsonb::to_u64(&a), jsonb::as_u64(&a)); }
+        "to_f64" => { let _ = (jsonb::to_f64(&a), jsonb::as_f64(&a)); }
+        "as_str" => { let _ = (jsonb::as_str(&a).is_some(), jsonb::is_string(&a)); }
+        "to_str" => { let _ = jsonb::to_str(&a); }
+        "is_array" => { let _ = jsonb::is_array(&a); }
+        "is_object" => { let _ = jsonb::is_object(&a); }
+        "to_serde_json" => { if let Ok(v) = jsonb::to_serde_json(&a) { std::mem::forget(v); } }
+        "to_serde_json_object" => { if let Ok(v) = jsonb::to_serde_json_object(&a) { std::mem::forget(v); } }
+        "type_of" => { let _ = jsonb::type_of(&a); }
+        "traverse_check_string" => { let _ = jsonb::traverse_check_string(&a, |s| s == b"needle"); }
+        "delete_by_name" => { let _ = jsonb::delete_by_name(&a, "zz", &mut out); }
+        "delete_by_index" => { let _ = jsonb::delete_by_index(&a, 5, &mut out); }
+        "delete_by_keypath_short" => { let _ = jsonb::delete_by_keypath(&a, short_kp.iter(), &mut out); }
+        "array_distinct" => { let _ = jsonb::array_distinct(&a, &mut out); }
+        "object_delete" => { let _ = jsonb::object_delete(&a, &set, &mut out); }
+        "object_pick" => { let _ = jsonb::object_pick(&a, &set, &mut out); }
+        "strip_nulls" => { let _ = jsonb::strip_nulls(&a, &mut out); }
+        "path_exists_root" => { let _ = jsonb::path_exists(&a, root()); }
+        "path_match_predicate" => {
+            let p = jp::JsonPath { paths: vec![jp::Path::Predicate(Box::new(jp::Expr::BinaryOp { op: jp::BinaryOperator::Eq, left: Box::new(jp::Expr::Paths(vec![jp::Path::Root])), right: Box::new(jp::Expr::Value(Box::new(jp::PathValue::Null))) }))] };
+            let _ = jsonb::path_match(&a, p);
+        }
+        "get_by_path_first_elem" => {
+            let step = if level_is_object(shape, 0) { jp::Path::DotField(Cow::Borrowed("a")) } else { jp::Path::ArrayIndices(vec![jp::ArrayIndex::Index(jp::Index::Index(0))]) };
+            let _ = jsonb::get_by_path_first(&a, jp::JsonPath { paths: vec![jp::Path::Root, step] }, &mut out, &mut offs);
+        }
+        "get_by_path_array_wild" => {
+            let step = if level_is_object(shape, 0) { jp::Path::DotWildcard } else { jp::Path::BracketWildcard };
+            let _ = jsonb::get_by_path_array(&a, jp::JsonPath { paths: vec![jp::Path::Root, step] }, &mut out, &mut offs);
+        }
+        "parse_lazy_value" => { if let Ok(v) = jsonb::parse_lazy_value(&a) { std::mem::forget(v); } }
+        "lazy_raw_to_vec" => { let _ = jsonb::LazyValue::Raw(Cow::Borrowed(&a)).to_vec(); }
+        "lazy_raw_array_length" => { let _ = jsonb::LazyValue::Raw(Cow::Borrowed(&a)).array_length(); }
+        "lazy_raw_write_to_vec" => { jsonb::LazyValue::Raw(Cow::Borrowed(&a)).write_to_vec(&mut out); }
+        "contains" => { let _ = jsonb::contains(&a, &b); }
+        "concat" => { let _ = jsonb::concat(&a, &b, &mut out); }
+        "array_insert" => { let _ = jsonb::array_insert(&a, 1, &b, &mut out); }
+        "array_intersection" => { let _ = jsonb::array_intersection(&a, &b, &mut out); }
+        "array_except" => { let _ = jsonb::array_except(&a, &b, &mut out); }
+        "array_overlap" => { let _ = jsonb::array_overlap(&a, &b); }
+        "object_insert" => { let _ = jsonb::object_insert(&a, "k", &b, true, &mut out); }
+        "build_array" => { let _ = jsonb::build_array([a.as_slice(), b.as_slice()], &mut out); }
+        "build_object" => { let _ = jsonb::build_object([("a", a.as_slice()), ("b", b.as_slice())], &mut out); }
+        other => return format!("harness:unknown_api:{other}"),
+    }
+    "completed".into()
+}
+
 fn index_doc(len: usize) -> MVal {
     MVal::Arr((0..len).map(|i| MVal::U64(i as u64 + 1)).collect())
 }
@@ -586,11 +744,12 @@ pub fn child_main(arg: &str) -> i32 {
         }
     };
     let stack = match &case {
-        Case::Depth { stack, .. } => *stack,
+        Case::Depth { stack, .. } | Case::Api { stack, .. } => *stack,
         Case::Index { .. } => 8 << 20,
     };
     let h = std::thread::Builder::new().name("case".into()).stack_size(stack as usize).spawn(move || {
         guard(|| match &case {
+            Case::Api { func, variant, shape, depth, .. } => run_api(func, variant, shape, *depth),
             Case::Depth { op, shape, depth, .. } => run_depth_op(op, shape, *depth),
             Case::Index { op, index, index2, len, text, .. } if op.contains("text") || op == "get_by_index_extreme" => run_index_text_op(op, *index, *index2, *len, *text),
             Case::Index { op, index, index2, len, text, .. } => run_index_op(op, *index, *index2, *len, *text),
@@ -639,7 +798,7 @@ fn run_child(case: &Case, timeout_s: u64) -> ChildOutcome {
     use std::io::Read;
     use std::process::{Command, Stdio};
     let build = match case {
-        Case::Depth { build, .. } | Case::Index { build, .. } => build.clone(),
+        Case::Depth { build, .. } | Case::Index { build, .. } | Case::Api { build, .. } => build.clone(),
     };
     let exe = match build_exe(&build) {
         Ok(e) => e,
@@ -692,6 +851,7 @@ fn run_child(case: &Case, timeout_s: u64) -> ChildOutcome {
 impl Limits {
     pub fn case_to_json(c: &Case) -> J {
         match c {
+            Case::Api { func, variant, shape, depth, stack, build } => json!({"kind": "api", "func": func, "variant": variant, "shape": shape, "depth": depth, "stack_bytes": stack, "build": build}),
             Case::Depth { op, shape, depth, stack, build } => json!({"kind": "depth", "op": op, "shape": shape, "depth": depth, "stack_bytes": stack, "build": build}),
             Case::Index { op, index, index2, len, text, build } => json!({"kind": "index", "op": op, "index": index, "index2": index2, "len": len, "text": text, "build": build}),
         }
@@ -699,6 +859,7 @@ impl Limits {
     pub fn case_from_json(j: &J) -> Result<Case, String> {
         let s = |k: &str| j[k].as_str().map(|v| v.to_string()).ok_or_else(|| format!("field {k}"));
         match j["kind"].as_str().unwrap_or("") {
+            "api" => Ok(Case::Api { func: s("func")?, variant: s("variant")?, shape: s("shape")?, depth: j["depth"].as_u64().ok_or("depth")?.max(1), stack: j["stack_bytes"].as_u64().ok_or("stack")?, build: s("build")? }),
             "depth" => Ok(Case::Depth { op: s("op")?, shape: s("shape")?, depth: j["depth"].as_u64().ok_or("depth")?.max(1), stack: j["stack_bytes"].as_u64().ok_or("stack")?, build: s("build")? }),
             "index" => Ok(Case::Index {
                 op: s("op")?,
@@ -808,6 +969,46 @@ pub fn floors_main() -> i32 {
     0
 }
 
+/// `sim limits-baseline`: runs the API sweep on the current tree and prints limits_baseline.json
+/// (the variants that die of stack exhaustion today, per build).
+pub fn baseline_main() -> i32 {
+    let plan = Limits::api_plan();
+    let next = std::sync::atomic::AtomicUsize::new(0);
+    let found: std::sync::Mutex<BTreeMap<String, Vec<String>>> = std::sync::Mutex::new(BTreeMap::new());
+    let other: std::sync::Mutex<Vec<String>> = std::sync::Mutex::new(vec![]);
+    std::thread::scope(|sc| {
+        for _ in 0..16 {
+            sc.spawn(|| loop {
+                let i = next.fetch_add(1, std::sync::atomic::Ordering::SeqCst);
+                if i >= plan.len() {
+                    break;
+                }
+                if let Case::Api { func, variant, shape, build, .. } = &plan[i] {
+                    let key = format!("api:{func}:{variant}:{shape}");
+                    match run_child(&plan[i], 120) {
+                        ChildOutcome::StackOverflow => found.lock().unwrap().entry(key).or_default().push(build.clone()),
+                        ChildOutcome::Result(r) if !r.starts_with("panic:") => {}
+                        o => other.lock().unwrap().push(format!("{key} {build}: {o:?}")),
+                    }
+                }
+            });
+        }
+    });
+    let mut found = found.into_inner().unwrap();
+    for v in found.values_mut() {
+        v.sort();
+    }
+    let j = json!({
+        "comment": "API-sweep variants (function : argument layout : shape) that die of stack exhaustion on the unchanged tree, per build, at the sweep's depth and stack budget. These functions are outside the operation classes C20 names, or reach a recorded recursive entry point (parser, decoder, encoder, Value drop) through another function; they are recorded so that the sweep reports regressions only. Regenerate with `sim limits-baseline`.",
+        "depth": API_DEPTH, "stack_bytes": API_STACK, "crashing_today": found,
+    });
+    println!("{}", serde_json::to_string_pretty(&j).unwrap());
+    for o in other.into_inner().unwrap() {
+        eprintln!("NOT-A-CLEAN-OUTCOME {o}");
+    }
+    0
+}
+
 impl Scenario for Limits {
     type Case = Case;
     fn id(&self) -> &'static str {
@@ -823,7 +1024,7 @@ impl Scenario for Limits {
         0xC20
     }
     fn runs(&self, tier: &str) -> u64 {
-        let fixed = (Limits::plan().len() + self.probes().len()) as u64;
+        let fixed = (Limits::plan().len() + self.probes().len() + Limits::api_plan().len()) as u64;
         if tier == "thorough" {
             fixed + 16_000
         } else {
@@ -834,6 +1035,7 @@ impl Scenario for Limits {
     fn gen(&self, seed: u64, run: u64) -> Case {
         let mut plan = Limits::plan();
         plan.extend(self.probes());
+        plan.extend(Limits::api_plan());
         if (run as usize) < plan.len() {
             return plan[run as usize].clone();
         }
@@ -870,12 +1072,40 @@ impl Scenario for Limits {
         let mut digest = Fnv::new();
         stats.steps += 1;
         let out = run_child(case, 120);
+        if let Case::Api { func, variant, shape, build, .. } = case {
+            let key = format!("api:{func}:{variant}:{shape}");
+            let (label, viol): (String, Option<Viol>) = match &out {
+                ChildOutcome::Result(r) if r.starts_with("panic:") => ("panic".into(), Some(Viol { class: format!("panic:{key}"), detail: r.clone() })),
+                ChildOutcome::Result(r) => (r.split(':').next().unwrap_or("?").to_string(), None),
+                ChildOutcome::StackOverflow => {
+                    if self.baseline.get(&key).map_or(false, |b| b.iter().any(|x| x == build)) {
+                        ("recorded_crash".into(), None)
+                    } else {
+                        ("stack_overflow".into(), Some(Viol { class: format!("stack_overflow:{key}"), detail: format!("{func} with argument layout {variant} on {shape} nested {API_DEPTH} levels deep died of stack exhaustion in the {build} build; it completes on the recorded baseline") }))
+                    }
+                }
+                ChildOutcome::Death(d) => ("process_death".into(), Some(Viol { class: format!("process_death:{key}"), detail: d.clone() })),
+                ChildOutcome::Hang => ("hang".into(), Some(Viol { class: format!("hang:{key}"), detail: "no result after 120 s".into() })),
+                ChildOutcome::Harness(e) => ("harness".into(), Some(Viol { class: "H0:harness".into(), detail: e.clone() })),
+            };
+            digest.str(&label);
+            stats.inc2("api_sweep", &label);
+            if label == "completed" || label == "error" {
+                stats.inc("probe/api_variant_shallow_today");
+            }
+            let mut h = Fnv::new();
+            h.str(&format!("{key}{build}"));
+            stats.distinct.insert(h.finish());
+            stats.sample(10, || json!({"case": Limits::case_to_json(case), "outcome": label}));
+            return RunOut { digest: digest.finish(), violations: viol.into_iter().map(|v| (v, None)).collect() };
+        }
         let (label, viol): (String, Option<Viol>) = match (&out, case) {
             (ChildOutcome::Harness(e), _) => (format!("harness:{e}"), Some(Viol { class: "H0:harness".into(), detail: e.clone() })),
             (ChildOutcome::Result(r), _) if r.starts_with("panic:") => {
                 let (opname, what) = match case {
                     Case::Depth { op, shape, .. } => (op.clone(), shape.clone()),
                     Case::Index { op, .. } => (op.clone(), "extreme_index".to_string()),
+                    Case::Api { func, variant, .. } => (func.clone(), variant.clone()),
                 };
                 // the panic site without its line number keeps the class stable across unrelated edits
                 let rest = &r["panic:".len()..];
@@ -907,10 +1137,12 @@ impl Scenario for Limits {
                 ("stack_overflow".into(), Some(Viol { class, detail: format!("the process died of stack exhaustion at nesting depth {depth}") }))
             }
             (ChildOutcome::StackOverflow, Case::Index { op, .. }) => ("stack_overflow".into(), Some(Viol { class: format!("stack_overflow:{op}:extreme_index"), detail: "stack exhaustion".into() })),
+            (ChildOutcome::StackOverflow, Case::Api { .. }) => unreachable!("handled above"),
             (ChildOutcome::Death(d), c) => {
                 let opname = match c {
                     Case::Depth { op, shape, .. } => format!("{op}:{shape}"),
                     Case::Index { op, .. } => format!("{op}:extreme_index"),
+                    Case::Api { func, variant, .. } => format!("{func}:{variant}"),
                 };
                 ("process_death".into(), Some(Viol { class: format!("process_death:{opname}"), detail: d.clone() }))
             }
@@ -918,6 +1150,7 @@ impl Scenario for Limits {
                 let opname = match c {
                     Case::Depth { op, shape, .. } => format!("{op}:{shape}"),
                     Case::Index { op, .. } => format!("{op}:extreme_index"),
+                    Case::Api { func, variant, .. } => format!("{func}:{variant}"),
                 };
                 ("hang".into(), Some(Viol { class: format!("hang:{opname}"), detail: "no result after 120 s".into() }))
             }
@@ -943,6 +1176,7 @@ impl Scenario for Limits {
                     }
                 }
             }
+            Case::Api { .. } => {}
             Case::Index { op, index, len, build, text, .. } => {
                 stats.inc2("index_cases", &format!("{op}:{build}:{}", if *text { "text" } else { "jsonb" }));
                 stats.inc2("outcome", &format!("{op}:{label}"));
@@ -966,6 +1200,14 @@ impl Scenario for Limits {
 
     fn shrink(&self, case: &Case) -> Vec<Case> {
         match case {
+            Case::Api { func, variant, shape, depth, stack, build } => {
+                let d = *depth;
+                [d / 2, d - d / 4, d - d / 8, d - d / 16]
+                    .into_iter()
+                    .filter(|c| *c >= 1 && *c < d)
+                    .map(|c| Case::Api { func: func.clone(), variant: variant.clone(), shape: shape.clone(), depth: c, stack: *stack, build: build.clone() })
+                    .collect()
+            }
             Case::Depth { op, shape, depth, stack, build } => {
                 // bisect towards the smallest crashing depth
                 let d = *depth;
@@ -1002,7 +1244,7 @@ impl Scenario for Limits {
     }
     fn size(&self, case: &Case) -> J {
         match case {
-            Case::Depth { depth, .. } => json!({"depth": depth}),
+            Case::Depth { depth, .. } | Case::Api { depth, .. } => json!({"depth": depth}),
             Case::Index { len, .. } => json!({"len": len}),
         }
     }
@@ -1012,6 +1254,8 @@ impl Scenario for Limits {
          the depth ladder {1,2,10,100,1e3,1e4,1e5,3e5} x stack budgets {8 MiB, 2 MiB} x builds {dev = unoptimised with overflow checks and debug assertions, checked = optimised with the same checks, shipped = release defaults}, all enumerated, \
          plus seeded log-uniform depths between the rungs with stacks {1,2,4,8 MiB}. Extreme-argument cases: {delete_by_index, array_insert, delete_by_keypath, get_by_keypath, $[i], \
          $[last-i], $[last+i], $[a to b]} x {MIN, MIN+1, -len-1, -len, -1, 0, len-1, len, len+1, MAX-1, MAX} x len {0,1,3} x {JSONB, JSON text} x all three builds, all enumerated, plus seeded i32s. \
+         API sweep: 49 public byte-level functions x every argument layout (deep JSONB / deep text in each position, small JSONB / text in the other) x {arrays, objects} x {dev, shipped} \
+         at 60,000 levels on a 2 MiB stack; variants that die on the unchanged tree are recorded in limits_baseline.json, so the sweep reports regressions only. \
          distinct_nontrivial = distinct cases with depth >= 2 or an index outside -len..len."
             .into()
     }
@@ -1030,6 +1274,7 @@ impl Scenario for Limits {
         m.insert("depth_cases".into(), stats.group("depth_cases"));
         m.insert("index_cases".into(), stats.group("index_cases"));
         m.insert("outcome_table".into(), stats.group("outcome"));
+        m.insert("api_sweep_outcomes".into(), stats.group("api_sweep"));
         let mins: serde_json::Map<String, J> = stats.min.iter().map(|(k, v)| (k.clone(), json!(v))).collect();
         m.insert("smallest_crashing_depth_observed".into(), J::Object(mins));
         m.insert(
@@ -1046,6 +1291,6 @@ impl Scenario for Limits {
     }
 
     fn probes(&self) -> Vec<&'static str> {
-        vec!["probe/i32_extreme_index", "probe/completed_at_100k_or_deeper", "probe/stack_exhaustion_observed"]
+        vec!["probe/i32_extreme_index", "probe/completed_at_100k_or_deeper", "probe/stack_exhaustion_observed", "probe/api_variant_shallow_today"]
     }
 }
